@@ -376,6 +376,10 @@ func wrap(value string) string {
 }
 
 func canEqual(tt types.Type) bool {
+	if named, isNamed := tt.(*types.Named); isNamed && equalMethodInputParam(named) != nil {
+		// the type's own Equal method decides, == would bypass it.
+		return false
+	}
 	t := tt.Underlying()
 	switch typ := t.(type) {
 	case *types.Basic:
